@@ -191,6 +191,14 @@ func safetyFamily(tier string, amevs []int64) []*Job {
 				sc.ByzScript = append(sc.ByzScript, ByzStep{"precommit for proposal A", 0, all}, ByzStep{"precommit for proposal B", 0, all})
 			}
 			jobs = append(jobs, job(sc, per))
+			// the same base with the network as the only source of deviations (no further Byzantine sends): small
+			// enough to be exhausted at k=3
+			if n == 4 {
+				sn := scen(fmt.Sprintf("B12n-equivocating-primary%d-N%d-network-only-%s", b, n, amevName(a)), n, withAMEV(a), withKind(b, kByz), withK(3))
+				sn.Dev = Dev{Reorder: true, Hold: true, Premature: true}
+				sn.ByzScript = sc.ByzScript
+				jobs = append(jobs, job(sn, per))
+			}
 		}
 	}
 	// B12m: the equivocating primary gives one backup a proposal with a transaction that backup lacks and fetches
